@@ -59,7 +59,7 @@ def ncases(path):
     return len(mo.CASES)
 nmut, nben = ncases("selftest/mutants.py"), ncases("selftest/benign.py")
 def fill(t):
-    return t.replace("@@NFIX@@", str(len(rows))).replace("@@NMUT@@", str(nmut)).replace("@@NBEN@@", str(nben)).replace("@@NCASES@@", str(len(rows) + nmut + nben + tot))
+    return t.replace("@@NFIX@@", str(len(rows))).replace("@@NMUT@@", str(nmut)).replace("@@NBEN@@", str(nben)).replace("@@NCASES@@", str(len(rows) + nmut + nben + tot)).replace("@@NSEED@@", str(tot))
 head, tail = fill(head), fill(tail)
 open("DESIGN.md", "w").write(head + "\n--------------------------------------------------------------------------\n\n" + sec5 + "\n" + tail)
 import shutil
